@@ -26,9 +26,9 @@ type fsCase struct {
 	Start  int    `json:"start"`
 	Spell  string `json:"spell"`
 	Files  struct {
-		Plans  bool `json:"plans"`
-		Events bool `json:"events"`
-		Lock   bool `json:"lock"`
+		Plans  string `json:"plans"`
+		Events string `json:"events"`
+		Lock   bool   `json:"lock"`
 	} `json:"files"`
 }
 
@@ -116,7 +116,7 @@ func (e *Env) runFSCase(c fsCase, idx int) (*Obs, error) {
 		if err := os.MkdirAll(ed, 0o755); err != nil {
 			return nil, err
 		}
-		plans, events, lock := true, false, true
+		plans, events, lock := "full", "no", true
 		if lvl == target {
 			plans, events, lock = c.Files.Plans, c.Files.Events, c.Files.Lock
 		}
@@ -130,14 +130,19 @@ func (e *Env) runFSCase(c fsCase, idx int) (*Obs, error) {
 			}
 			return os.WriteFile(filepath.Join(ed, file), append(line, '\n'), 0o644)
 		}
-		if plans {
-			if err := write("plans.jsonl", "plans", 1); err != nil {
-				return nil, err
-			}
-		}
-		if events {
-			if err := write("events.jsonl", "events", 2); err != nil {
-				return nil, err
+		for _, f := range []struct {
+			presence, file, tag string
+			n                   int
+		}{{plans, "plans.jsonl", "plans", 1}, {events, "events.jsonl", "events", 2}} {
+			switch f.presence {
+			case "full":
+				if err := write(f.file, f.tag, f.n); err != nil {
+					return nil, err
+				}
+			case "empty":
+				if err := os.WriteFile(filepath.Join(ed, f.file), nil, 0o644); err != nil {
+					return nil, err
+				}
 			}
 		}
 		if lock {
@@ -185,7 +190,7 @@ func (e *Env) runFSCase(c fsCase, idx int) (*Obs, error) {
 		}
 	}
 	logTag := "plans"
-	if !c.Files.Plans && c.Files.Events {
+	if c.Files.Plans == "no" && c.Files.Events != "no" {
 		logTag = "events"
 	}
 	mid := markerID[fmt.Sprintf("%d:%s", target, logTag)]
